@@ -157,3 +157,20 @@ Fixpoint run_reader_tr (fuel : nat) (resume : bool) (r : reader) (n : net) (fi :
   end.
 Definition run_session_tr (k : framing_kind) (resume : bool) (n : net) (fi : fin) : (list item * ending) * list nat :=
   let r := reader_new k in run_reader_tr (run_fuel r n) resume r n fi.
+
+(* ---- cancellation: reader.next_frame(..) is one branch of a tokio::select! (SessionTask::run_one,
+   ClientLoop::poll, ClientLoop::execute_request). When another branch fires the future is dropped
+   while it waits for bytes, and a NEW call is made later from the reader's state (parser state +
+   buffer). `run_cancel` is the session in which this happens at EVERY chunk boundary: the chunk is
+   delivered, calls are made until one has to wait, that one is abandoned; when the chunks are used
+   up the last call meets the real end of the stream. *)
+Fixpoint run_cancel (r : reader) (chunks : net) (fi : fin) : list item * ending :=
+  match chunks with
+  | [] => run_reader (run_fuel r []) false r [] fi
+  | c :: rest =>
+      let '(r1, (l1, e1)) := run_reader_st (run_fuel r [c]) r [c] FinPending in
+      match e1 with
+      | EndPending => let '(l2, e2) := run_cancel r1 rest fi in (l1 ++ l2, e2)
+      | _ => (l1, e1)
+      end
+  end.
